@@ -29,6 +29,17 @@ func (in *Interp) doCall(fr *Frame, c *ssa.CallCommon, fv Value, args []Value) V
 		if co, ok := iv.v.(*CtxObj); ok {
 			return in.ctxMethod(co, c.Method.Name(), args)
 		}
+		if iv.t == nil && c.Method.Pkg() != nil && isNoopPkg(c.Method.Pkg().Path()) {
+			// value handed out by a no-op library (metrics, logging): its methods do nothing
+			res := c.Signature().Results()
+			switch res.Len() {
+			case 0:
+				return nil
+			case 1:
+				return zero(res.At(0).Type())
+			}
+			return zero(res)
+		}
 		if iv.t == nil {
 			in.abort("panic", "nil interface method call in "+fr.fn.String())
 		}
